@@ -538,6 +538,10 @@ impl TryDecode for u16 {
     type Error = ConversionError;
 
     fn try_decode(bytes: Bytes) -> Result<Self, Self::Error> {
+        if bytes.len() < mem::size_of::<u16>() {
+            return Err(InsufficientBufferSize.into());
+        }
+
         bytes
             .iter()
             .take(mem::size_of::<u16>())
@@ -569,6 +573,10 @@ impl TryDecode for u32 {
     type Error = ConversionError;
 
     fn try_decode(bytes: Bytes) -> Result<Self, Self::Error> {
+        if bytes.len() < mem::size_of::<u32>() {
+            return Err(InsufficientBufferSize.into());
+        }
+
         bytes
             .iter()
             .take(mem::size_of::<u32>())
